@@ -122,12 +122,32 @@ example : (convert ⟨false, [("FREEZES".toList, some "1=2".toList)], []⟩ true
 
 /-! ### 19. negative BPMs and stops -/
 
-/-- an SM source with a negative BPM or stop value is refused -/
+/-- every value token of the rows is a decimal literal (`Decimal(value)` succeeds on each) -/
+theorem valuesParse_iff (rows : List BVRow) :
+    valuesParse rows = true ↔ ∀ r ∈ rows, ∃ q, parseDecimal r.value = some q := by
+  unfold valuesParse
+  rw [List.all_eq_true]
+  simp only [Option.isSome_iff_exists]
+
+theorem hasNegative_iff (rows : List BVRow) :
+    hasNegative rows = true ↔ ∃ r ∈ rows, ∃ q, parseDecimal r.value = some q ∧ q < 0 := by
+  unfold hasNegative
+  rw [List.any_eq_true]
+  constructor
+  · rintro ⟨r, hr, h⟩
+    cases hq : parseDecimal r.value with
+    | none => rw [hq] at h; cases h
+    | some q => rw [hq] at h; exact ⟨r, hr, q, hq, by simpa using h⟩
+  · rintro ⟨r, hr, q, hq, hn⟩
+    exact ⟨r, hr, by rw [hq]; simpa using hn⟩
+
+/-- an SM source whose BPM and stop rows all carry decimal values, one of them negative, is refused -/
 theorem negative_refused (sm : AnySimfile) (toSSC : Bool) (st : Option AnySimfile)
     (ct : Option (Dict × Option (List Str))) (beh : List (Nat × Nat)) (hs : sm.isSSC = false)
     (b s : List BVRow)
     (hb : beatValuesFromStr (attrGet .smSimfile sm.props "bpms".toList) = some b)
     (hst : beatValuesFromStr (attrGet .smSimfile sm.props "stops".toList) = some s)
+    (hvp : ∀ r ∈ b ++ s, ∃ q, parseDecimal r.value = some q)
     (hneg : ∃ r ∈ b ++ s, ∃ q, parseDecimal r.value = some q ∧ q < 0) :
     convert sm toSSC st ct beh = .error .notImplemented := by
   have e1 : "bpms".toList = ['b','p','m','s'] := by decide
@@ -139,26 +159,105 @@ theorem negative_refused (sm : AnySimfile) (toSSC : Bool) (st : Option AnySimfil
     rcases List.mem_append.mp hr with hr | hr
     · rw [hasNegative_of_mem b r q hr hq hn]; rfl
     · rw [hasNegative_of_mem s r q hr hq hn]; simp
-  simp only [this, if_true]
+  have hp : (valuesParse b && valuesParse s) = true := by
+    rw [Bool.and_eq_true, valuesParse_iff, valuesParse_iff]
+    exact ⟨fun r hr => hvp r (List.mem_append_left _ hr), fun r hr => hvp r (List.mem_append_right _ hr)⟩
+  simp only [this, hp, if_true, Bool.not_true, Bool.false_eq_true, if_false]
 
-/-- BPMS or stops that do not parse as `beat=value` rows are a ValueError -/
+/-- BPMS or stops that do not parse as `beat=value` rows, or a row whose value token is not a decimal literal
+(whatever the signs of the other rows): a ValueError -/
 theorem unparsable_refused (sm : AnySimfile) (toSSC : Bool) (st : Option AnySimfile)
     (ct : Option (Dict × Option (List Str))) (beh : List (Nat × Nat)) (hs : sm.isSSC = false)
     (h : beatValuesFromStr (attrGet .smSimfile sm.props "bpms".toList) = none ∨
-      beatValuesFromStr (attrGet .smSimfile sm.props "stops".toList) = none) :
+      beatValuesFromStr (attrGet .smSimfile sm.props "stops".toList) = none ∨
+      ∃ b s, beatValuesFromStr (attrGet .smSimfile sm.props "bpms".toList) = some b ∧
+        beatValuesFromStr (attrGet .smSimfile sm.props "stops".toList) = some s ∧
+        ∃ r ∈ b ++ s, parseDecimal r.value = none) :
     convert sm toSSC st ct beh = .error .valueError := by
   have e1 : "bpms".toList = ['b','p','m','s'] := by decide
   have e2 : "stops".toList = ['s','t','o','p','s'] := by decide
   rw [e1, e2] at h
   rw [convert_eq, convertWarps_sm sm hs]
-  rcases h with h | h
+  rcases h with h | h | ⟨b, s, hb, hst, r, hr, hq⟩
   · rw [h]
   · rw [h]; cases beatValuesFromStr (attrGet .smSimfile sm.props ['b','p','m','s']) <;> rfl
+  · rw [hb, hst]
+    have hp : (valuesParse b && valuesParse s) = false := by
+      rw [Bool.and_eq_false_iff, ← Bool.not_eq_true, ← Bool.not_eq_true, valuesParse_iff, valuesParse_iff]
+      rcases List.mem_append.mp hr with hr | hr
+      · exact Or.inl fun hall => by obtain ⟨q, hq'⟩ := hall r hr; rw [hq] at hq'; cases hq'
+      · exact Or.inr fun hall => by obtain ⟨q, hq'⟩ := hall r hr; rw [hq] at hq'; cases hq'
+    simp only [hp, Bool.not_false, if_true]
+
+/-- `_convert_warps` on an SM source, by rows: it passes exactly when BPMS and stops both split into `beat=value`
+rows and every value token is a decimal literal that is not negative -/
+theorem convertWarps_ok_iff (sm : AnySimfile) (hs : sm.isSSC = false) :
+    convertWarps sm = .ok () ↔
+      ∃ b s, beatValuesFromStr (attrGet .smSimfile sm.props "bpms".toList) = some b ∧
+        beatValuesFromStr (attrGet .smSimfile sm.props "stops".toList) = some s ∧
+        ∀ r ∈ b ++ s, ∃ q, parseDecimal r.value = some q ∧ 0 ≤ q := by
+  have e1 : "bpms".toList = ['b','p','m','s'] := by decide
+  have e2 : "stops".toList = ['s','t','o','p','s'] := by decide
+  rw [e1, e2, convertWarps_sm sm hs]
+  cases hb : beatValuesFromStr (attrGet .smSimfile sm.props ['b','p','m','s']) with
+  | none => simp
+  | some b =>
+    cases hst : beatValuesFromStr (attrGet .smSimfile sm.props ['s','t','o','p','s']) with
+    | none => simp
+    | some s =>
+      simp only [Option.some.injEq, exists_and_left, exists_eq_left']
+      by_cases hp : (valuesParse b && valuesParse s) = true
+      · by_cases hng : (hasNegative b || hasNegative s) = true
+        · simp only [hp, hng, Bool.not_true, Bool.false_eq_true, if_false, if_true, reduceCtorEq, false_iff]
+          intro hall
+          rw [Bool.or_eq_true, hasNegative_iff, hasNegative_iff] at hng
+          have : ∃ r ∈ b ++ s, ∃ q, parseDecimal r.value = some q ∧ q < 0 := by
+            rcases hng with ⟨r, hr, h⟩ | ⟨r, hr, h⟩
+            · exact ⟨r, List.mem_append_left _ hr, h⟩
+            · exact ⟨r, List.mem_append_right _ hr, h⟩
+          obtain ⟨r, hr, q, hq, hn⟩ := this
+          obtain ⟨q', hq', hn'⟩ := hall r hr
+          rw [hq] at hq'; cases hq'
+          exact absurd hn (not_lt.mpr hn')
+        · simp only [hp, hng, Bool.not_true, Bool.false_eq_true, if_false, true_iff]
+          intro r hr
+          rw [Bool.and_eq_true, valuesParse_iff, valuesParse_iff] at hp
+          have hq : ∃ q, parseDecimal r.value = some q := by
+            rcases List.mem_append.mp hr with hr | hr
+            · exact hp.1 r hr
+            · exact hp.2 r hr
+          obtain ⟨q, hq⟩ := hq
+          refine ⟨q, hq, not_lt.mp fun hn => hng ?_⟩
+          rw [Bool.or_eq_true, hasNegative_iff, hasNegative_iff]
+          rcases List.mem_append.mp hr with hr | hr
+          · exact Or.inl ⟨r, hr, q, hq, hn⟩
+          · exact Or.inr ⟨r, hr, q, hq, hn⟩
+      · simp only [hp, Bool.not_false, if_true, reduceCtorEq, false_iff]
+        intro hall
+        apply hp
+        rw [Bool.and_eq_true, valuesParse_iff, valuesParse_iff]
+        exact ⟨fun r hr => (hall r (List.mem_append_left _ hr)).imp fun q h => h.1,
+          fun r hr => (hall r (List.mem_append_right _ hr)).imp fun q h => h.1⟩
+
+/-- the conversion of an SM source succeeds exactly when BPMS and stops (STOPS or its alias FREEZES) split into
+rows whose value tokens are all decimal literals, none negative -/
+theorem succeeds_iff_rows (sm : AnySimfile) (st : Option AnySimfile) (ct : Option (Dict × Option (List Str)))
+    (beh : List (Nat × Nat)) (hs : sm.isSSC = false) :
+    (∃ out, convert sm true st ct beh = .ok out) ↔
+      ∃ b s, beatValuesFromStr (attrGet .smSimfile sm.props "bpms".toList) = some b ∧
+        beatValuesFromStr (attrGet .smSimfile sm.props "stops".toList) = some s ∧
+        ∀ r ∈ b ++ s, ∃ q, parseDecimal r.value = some q ∧ 0 ≤ q := by
+  rw [succeeds_iff, convertWarps_ok_iff sm hs]
 
 example : convert ⟨false, [("BPMS".toList, some "0=120,x".toList)], []⟩ true none none [] = .error .valueError := by
   decide +kernel
 example : convert ⟨false, [("BPMS".toList, some "0=120,4=-90".toList)], []⟩ true none none [] =
     .error .notImplemented := by decide +kernel
+/-- a value token that is not a decimal literal is a ValueError even next to a negative value -/
+example : convert ⟨false, [("BPMS".toList, some "0=-120,4=abc".toList)], []⟩ true none none [] =
+    .error .valueError := by decide +kernel
+example : convert ⟨false, [("BPMS".toList, some "0=120".toList), ("STOPS".toList, some "4=1x".toList)], []⟩
+    true none none [] = .error .valueError := by decide +kernel
 example : convert ⟨false, [("BPMS".toList, some "0=120".toList), ("FREEZES".toList, some "4=-1".toList)], []⟩
     true none none [] = .error .notImplemented := by decide +kernel
 
